@@ -285,8 +285,10 @@ def call_generator(gen, shape, kwargs, rng):
     fn = getattr(G.LatticeMazeGenerators, gen)
     kw = norm_kwargs(kwargs)
     # gen_wilson subtracts from grid_shape: it needs an ndarray (MazeDatasetConfig.grid_shape_np passes one); the others take a tuple
-    grid = _np.array(ex.shape) if gen == "gen_wilson" or kw.pop("_shape_as_array", False) else ex.shape
-    kw.pop("_shape_as_array", None)
+    as_arr = kw.pop("_shape_as_array", False)
+    grid = _np.array(ex.shape) if gen == "gen_wilson" or as_arr else ex.shape
+    if as_arr == "int8":
+        grid = _np.array(ex.shape, dtype=_np.int8)  # the library's own Coord dtype: products of its entries must not be computed in int8
     try:
         with time_limit(EXEC_TIME_LIMIT if rng is not None else REAL_TIME_LIMIT), (installed(rng) if rng is not None else nullcontext()):
             ex.maze = fn(grid, **kw)
@@ -752,6 +754,10 @@ def plan(checker, tier, seed):
             sd_jobs.append(seeded_job(checker, "gen_percolation", sh, kw, seeds(("perc", kwargs_key(kw)), reps)))
         for kw in dfsperc_kwargs_cheap(*sh) + dfsperc_kwargs_full(*sh) + [{"p": 0.1, "accessible_cells": n // 2}, {"p": 0.2, "max_tree_depth": sh[0] + sh[1]}]:
             sd_jobs.append(seeded_job(checker, "gen_dfs_percolation", sh, kw, seeds(("dp", kwargs_key(kw)), reps)))
+    # a grid of 128 cells or more whose shape arrives as an int8 array (the dtype the library annotates coordinates with)
+    for sh in ((12, 12), (8, 16)):
+        for gen, kw in (("gen_dfs", {}), ("gen_prim", {}), ("gen_wilson", {}), ("gen_percolation", {"p": 1.0}), ("gen_dfs_percolation", {"p": 0.0})):
+            sd_jobs.append(seeded_job(checker, gen, sh, dict(kw, _shape_as_array="int8"), [stable_int(seed, "int8", gen, sh)], real=True))
     n_real = 6 if thorough else 3
     for sh in big:
         n = sh[0] * sh[1]
@@ -763,7 +769,7 @@ def plan(checker, tier, seed):
         f"[gen_wilson: {reps} up to 64 cells, 3 up to 150 cells, 2 above; 3x3: {6 * reps}]; {len(dfs_kwargs_large(5, 5))} settings for gen_dfs/gen_prim, "
         f"{len(perc_kwargs(5, 5)) + 2} for gen_percolation (p in 0, 1, 0.25, 0.4, 0.5, 0.75), {len(dfsperc_kwargs_cheap(5, 5)) + len(dfsperc_kwargs_full(5, 5)) + 2} for gen_dfs_percolation; "
 f"plus {n_real} runs per (generator, shape, 1-2 settings) with the REAL random/np.random seeded (replayed by seed, not by script); "
-        "all seeds derived from the run seed. evaluation = one execution; distinct = (generator, shape, kwargs, output bits, metadata)"
+        "plus one real-RNG run per generator on 12x12 and 8x16 with grid_shape passed as an int8 array; all seeds derived from the run seed. evaluation = one execution; distinct = (generator, shape, kwargs, output bits, metadata)"
     )
     return ex_jobs, sd_jobs, ex_rule, sd_rule
 
